@@ -51,6 +51,11 @@ def skeletons(T):
     ]
 
 
+# program variables V<n> with different digit counts (the fresh head variables must be chosen numerically, not lexicographically)
+VNAME_PROGRAMS = ['p(V9) :- q(V9, V10).', 'p(V99, X) :- q(V99, V100, X).', 'p(V10) :- q(V9, V10), not r(V2).', '{p(V9, V8)} :- q(V10, V9), r(V8).',
+                  'p(V2, V3) :- q(V10), r(V2, V3).', ':- q(V9, V10). p(V10) :- q(V10, V9).']
+
+
 CLI_PROGRAMS = ['p(X) :- q(X).', 'p(X + 1) :- q(X), not r(X, X).', '{p(X)} :- q(X), X = 1..3.', ':- p(X), q(X), X != a.',
                 'p(1..3). q(X) :- p(X), not not r(X).', 'p(-X) :- q(X). p(X / 2) :- q(X), X \\ 2 = 0.', 'p(a). q(b) :- p(a), a < b.',
                 's :- not s. t(X, Y) :- r(X, Y), X < Y, not p(Y).', 'p(X) :- X = 1..n, not q(X).', 'q(#inf). q(#sup) :- q(#inf).',
@@ -152,6 +157,8 @@ def generate(tier, seed):
         add('two-rules', p1 + '\n' + p2)
     for prog in CLI_PROGRAMS:
         items.append({'family': 'cli-agreement', 'program': prog, 'cli': True})
+    for prog in VNAME_PROGRAMS:
+        add('hand-adversarial', prog, ())
     return items
 
 
